@@ -297,6 +297,57 @@ fn through(r: &mut Report, rng: &mut Rng, m: &MMappings, stream: &str, orders: u
 	}
 }
 
+// ---------- an independent reference for "reading never merges, loses or re-parents a row" ----------
+fn ref_unescape(s: &[u32]) -> S {
+	let mut o = vec![]; let mut i = 0;
+	while i < s.len() {
+		if s[i] == 92 && i + 1 < s.len() {
+			let x = match s[i + 1] { 92 => Some(92), 110 => Some(10), 114 => Some(13), 116 => Some(9), _ => None };
+			if let Some(x) = x { o.push(x); i += 2; continue; }
+		}
+		o.push(s[i]); i += 1;
+	}
+	o
+}
+/// One pass over the lines with a stack of open parents (class / member / parameter): every row
+/// goes to the innermost open parent of the right kind; nothing is validated.  Only meaningful
+/// (and only compared) when the reader accepted the text.
+fn ref_rows(text: &str) -> Option<MMappings> {
+	let t = cps_str(text);
+	let mut lines: Vec<Vec<u32>> = vec![]; let mut cur = vec![]; let mut open = false;
+	for &c in &t { if c == 10 { if cur.last() == Some(&13) { cur.pop(); } lines.push(std::mem::take(&mut cur)); open = false; } else { cur.push(c); open = true; } }
+	if open { lines.push(cur); }
+	let split = |l: &Vec<u32>| -> (usize, Vec<Vec<u32>>) { let d = l.iter().take_while(|&&c| c == 9).count(); (d, l[d..].split(|&c| c == 9).map(|x| x.to_vec()).collect()) };
+	let names = |cells: &[Vec<u32>]| -> NamesRow { cells.iter().map(|c| if c.is_empty() { None } else { Some(c.clone()) }).collect() };
+	let (_, h) = split(lines.first()?);
+	let mut m = MMappings { ns: h.get(3..)?.to_vec(), doc: None, classes: vec![] };
+	let (mut in_class, mut member, mut in_param): (bool, Option<bool>, bool) = (false, None, false); // member: Some(true) = method
+	let mut seen_top = false;
+	for l in &lines[1..] {
+		let (d, cells) = split(l);
+		let tag = cells[0].as_slice();
+		if d == 0 { in_class = false; seen_top = true; } if d <= 1 { member = None; } if d <= 2 { in_param = false; }
+		let doc = || if cells.len() == 2 { Some(ref_unescape(&cells[1])) } else { None };
+		match (d, tag) {
+			(0, [99]) => { m.classes.push(MClass { names: names(&cells[1..]), doc: None, fields: vec![], methods: vec![] }); in_class = true; }
+			(1, [99]) if !seen_top => { if let Some(x) = doc() { m.doc = Some(x); } }
+			(1, [99]) if in_class => { if let Some(x) = doc() { m.classes.last_mut()?.doc = Some(x); } }
+			(1, [102]) if in_class && cells.len() >= 2 => { m.classes.last_mut()?.fields.push(MField { desc: cells[1].clone(), names: names(&cells[2..]), doc: None }); member = Some(false); }
+			(1, [109]) if in_class && cells.len() >= 2 => { m.classes.last_mut()?.methods.push(MMeth { desc: cells[1].clone(), names: names(&cells[2..]), doc: None, params: vec![] }); member = Some(true); }
+			(2, [99]) if member == Some(false) => { if let Some(x) = doc() { m.classes.last_mut()?.fields.last_mut()?.doc = Some(x); } }
+			(2, [99]) if member == Some(true) => { if let Some(x) = doc() { m.classes.last_mut()?.methods.last_mut()?.doc = Some(x); } }
+			(2, [112]) if member == Some(true) && cells.len() >= 2 => {
+				let idx: String = cells[1].iter().filter_map(|&c| char::from_u32(c)).collect();
+				let index = idx.strip_prefix('+').unwrap_or(&idx).parse::<u64>().ok()?;
+				m.classes.last_mut()?.methods.last_mut()?.params.push(MParam { index, names: names(&cells[2..]), doc: None }); in_param = true;
+			}
+			(3, [99]) if in_param => { if let Some(x) = doc() { m.classes.last_mut()?.methods.last_mut()?.params.last_mut()?.doc = Some(x); } }
+			_ => {}
+		}
+	}
+	Some(m)
+}
+
 /// a text through the reader; when it reads, the result is put through the property as well
 fn through_text(r: &mut Report, rng: &mut Rng, n: usize, text: &str, stream: &str, kind: &str, tally: &mut Tally) {
 	let rr = impl_read(n, text);
@@ -309,6 +360,10 @@ fn through_text(r: &mut Report, rng: &mut Rng, n: usize, text: &str, stream: &st
 			r.eval(text, m2.size() > 0);
 			if !desync.is_empty() { r.violation(format!("read produced a node whose map key differs from its own first name: {desync:?}"), replay("key / info out of sync after read", None, Some(text), "")); }
 			if !wf(m2) { r.violation("read returned a mapping set that is not well-formed".into(), replay("read result not well-formed", Some(m2), Some(text), "")); }
+			match ref_rows(text) {
+				Some(want) if &want == m2 => r.count("rows-reference-agrees"),
+				other => r.violation("read merged, lost, changed or re-parented a row (differs from the one-pass row classifier)".into(), replay("read result differs from the rows of the text", Some(m2), Some(text), &format!("rows of the text: {other:?}\n"))),
+			}
 			through(r, rng, m2, "reread", 1, tally);
 		}
 	}
@@ -318,7 +373,7 @@ pub fn run(ctx: &Ctx) -> anyhow::Result<Report> {
 	let mut r = Report::new("C03", "C03.Run");
 	let mut rng = Rng::new(ctx.seed);
 	let mut tally = Tally { in_hyp: 0, out_hyp: 0 };
-	let (n_valid, orders, n_viol, n_mut, n_raw) = if ctx.thorough { (2400, 24, 1500, 6000, 3000) } else { (330, 4, 240, 900, 500) };
+	let (n_valid, orders, n_viol, n_mut, n_raw) = if ctx.thorough { (2000, 24, 1200, 5000, 3000) } else { (330, 4, 240, 900, 500) };
 	r.rule = format!("mapping sets with n in {{2,3,4}} namespaces from mapmodel::gen_mappings (0-6 classes, 0-4 fields and methods, 0-3 parameters, every 8th set up to 12/6/4; absent cells 1/3 or 3/4; $-nested, packaged, non-BMP names; parameter indices up to u64::MAX) with comments of 22 kinds plus random ones over {{backslash,n,t,r,LF,TAB,CR}} on every level including the mappings' own; each written, read back, re-written, and written again in {orders} other insertion orders (oracle: read(write M) = M up to order, equal text for every order, write(read(write M)) = write M). Streams outside the hypotheses: one damaged cell (TAB/LF/CR/invalid characters/surrogates/empty descriptor), trees whose infos lost their first name or duplicate another class. Reader: written texts with one of 24 line-level mutations, random token soup, wrong namespace count, hand-written header edge cases, and EVERY sequence of up to {} lines out of 16 line shapes (each tag at indentation 0..4) below a header; every text that reads is put through the round trip again. Non-trivial: at least one class and the round trip succeeded (texts: read Ok with at least one class); distinct by canonical mapping set / by text.", if ctx.thorough { 4 } else { 3 });
 
 	// 0. fixed inputs: the repository's fixtures and the two repaired defects
@@ -398,7 +453,14 @@ pub fn run(ctx: &Ctx) -> anyhow::Result<Report> {
 			match &rr {
 				Err(p) => r.violation(format!("read panicked: {p}"), replay("read panicked", None, Some(&t), "")),
 				Ok(None) => r.count("enum=Err"),
-				Ok(Some((m2, _))) => { r.count("enum=Ok"); if !wf(m2) { r.violation("read returned a mapping set that is not well-formed".into(), replay("read result not well-formed", Some(m2), Some(&t), "")); } }
+				Ok(Some((m2, _))) => {
+					r.count("enum=Ok");
+					if !wf(m2) { r.violation("read returned a mapping set that is not well-formed".into(), replay("read result not well-formed", Some(m2), Some(&t), "")); }
+					match ref_rows(&t) {
+						Some(want) if &want == m2 => r.count("rows-reference-agrees"),
+						other => r.violation("read merged, lost, changed or re-parented a row (differs from the one-pass row classifier)".into(), replay("read result differs from the rows of the text", Some(m2), Some(&t), &format!("rows of the text: {other:?}\n"))),
+					}
+				}
 			}
 			r.eval_distinct(matches!(&rr, Ok(Some((m2, _))) if m2.size() > 0));
 			// next sequence (shorter ones first within the odometer order)
@@ -423,11 +485,12 @@ pub fn run(ctx: &Ctx) -> anyhow::Result<Report> {
 	}
 	r.count_n("inside-hypotheses", tally.in_hyp);
 	r.count_n("outside-hypotheses", tally.out_hyp);
-	// 16 shards of equal weight (coqc spends its time reading the case terms): deal the cases,
-	// longest first, round-robin into 16 buckets
+	// a multiple of 16 shards of equal weight (coqc spends its time reading the case terms): deal the cases,
+	// longest first, round-robin into the buckets
 	let mut cs = std::mem::take(&mut r.cases);
 	cs.sort_by_key(|c| std::cmp::Reverse(c.len()));
-	let k = 16;
+	let total: usize = cs.iter().map(|c| c.len()).sum();
+	let k = 16 * (1 + total / (16 * 2_000_000)); // at most about 2 MB (about 0.5 GB of coqc memory) per shard
 	let mut buckets: Vec<Vec<String>> = vec![vec![]; k];
 	for (i, c) in cs.into_iter().enumerate() { buckets[i % k].push(c); }
 	r.shard_size = buckets[0].len().max(1);
